@@ -754,3 +754,78 @@ pub fn run_suite(profile: &str, seed: u64, count: u64, per_case: usize, mut trac
     }
     (ops, outs, viols, st)
 }
+
+/// C14, concurrent clause, at the granularity of RandomPolicy's trait calls: small programs of stores,
+/// deletes and reads (some of expired items) under every interleaving; at rest the accounting must still
+/// cover what is stored, and the stored bytes must be within limit + the records written concurrently
+pub fn run_policy_suite(seed: u64, count: u64, per_case: usize, mut trace: Option<std::fs::File>) -> (Vec<String>, Vec<String>, Vec<(usize, usize, Vec<&'static str>, String)>, SchedStats) {
+    let mut master = Rng::new(seed ^ 0xb01);
+    let mut ops: Vec<String> = vec![];
+    let mut outs: Vec<String> = vec![];
+    let mut viols: Vec<(usize, usize, Vec<&'static str>, String)> = vec![];
+    let mut st = SchedStats { cases: 0, schedules: 0, nonlinearizable_known: Default::default(), distinct_outcomes: Default::default(), samples: vec![] };
+    for _ in 0..count {
+        let mut rng = master.fork();
+        let limit: u64 = *rng.pick(&[150u64, 300, 1000]);
+        let keys: Vec<Vec<u8>> = vec![b"a".to_vec(), b"b".to_vec(), b"c".to_vec()];
+        // setup: a few items, some with a TTL that will have passed
+        let mut setup_frames: Vec<Vec<u8>> = vec![];
+        for k in &keys {
+            if rng.chance(2, 3) {
+                let ttl = *rng.pick(&[0u32, 3, 3]);
+                setup_frames.push(wire::set_like(op::SET, k, &rng.bytes(rng.clone().below(40) as usize + 1), 0, ttl, 0, 1).bytes());
+            }
+        }
+        let nthreads = if rng.chance(1, 2) { 3 } else { 2 };
+        let programs: Vec<Vec<Vec<u8>>> = (0..nthreads)
+            .map(|_| {
+                (0..rng.range(1, 2))
+                    .map(|_| {
+                        let k = rng.pick(&keys).clone();
+                        match rng.below(5) {
+                            0 | 1 => wire::key_only(op::GET, &k, 0, 2).bytes(),
+                            2 => wire::key_only(op::DELETE, &k, 0, 3).bytes(),
+                            _ => wire::set_like(op::SET, &k, &rng.bytes(rng.clone().below(60) as usize + 1), 0, 0, 0, 4).bytes(),
+                        }
+                    })
+                    .collect()
+            })
+            .collect();
+        st.cases += 1;
+        let written: u64 = programs.iter().flatten().filter(|f| f[1] == op::SET).map(|f| f.len() as u64 - 24 - 8 - 1 + 24).sum();
+        let counts: Vec<usize> = programs.iter().map(|p| p.len() * 2).collect();
+        for sched in interleavings(&counts, per_case, &mut rng) {
+            st.schedules += 1;
+            let desc = format!("note policy-sched limit={} setup=[{}] programs=[{}] sched={:?}", limit, hexes(&setup_frames), programs.iter().map(|p| hexes(p)).collect::<Vec<_>>().join(" | "), sched).replace(", ", ",");
+            if let Some(f) = &mut trace {
+                use std::io::Write;
+                let _ = writeln!(f, "{}", desc);
+                let _ = f.flush();
+            }
+            let start = ops.len();
+            let w = World::new(4096, Some(limit));
+            for f in &setup_frames {
+                w.req(f);
+            }
+            w.clock.0.store(10, std::sync::atomic::Ordering::SeqCst);
+            let o = run_schedule(&w, &programs, &sched);
+            ops.push(desc);
+            outs.push("ok".into());
+            let end = ops.len();
+            if let Some(h) = &o.hung {
+                viols.push((start, end, vec!["C16", "C14"], h.clone()));
+                return (ops, outs, viols, st);
+            }
+            let stored: u64 = crate::sut::Sut::records_of(&w.mem).iter().map(|(_, r)| 24 + r.value.len() as u64).sum();
+            let usage = o.usage.unwrap_or(0);
+            st.distinct_outcomes.insert(format!("{}|{}|{}", stored, usage, fmt_results(&o.results)));
+            if usage < stored {
+                viols.push((start, end, vec!["C14", "C15"], format!("at rest after a concurrent phase the accounted usage {} is below the {} bytes stored (calls {:?}): later stores will not evict although the limit {} is exceeded", usage, stored, o.steps, limit)));
+            }
+            if stored > limit + written {
+                viols.push((start, end, vec!["C14"], format!("{} bytes stored at rest under limit {} although only {} bytes were written by the concurrent stores", stored, limit, written)));
+            }
+        }
+    }
+    (ops, outs, viols, st)
+}
